@@ -16,6 +16,8 @@ CLAIMED['C07'] = dict(text='Coq theorems (unbounded): reindex_axis = axis resolu
              note='method=left/right neighbour choice (np.searchsorted on the argsorted labels) and reindex_like are validated by correspondence only; that locate_many_raw finds every present label (completeness) is not proved, so the theorem is stated relative to the positions it returns.', tech='Coq proof + vm_compute correspondence', ref='3.7')
 CLAIMED['C06'] = dict(text='Coq theorems (unbounded): Axis.union label set = set union with each label once for all five branches of the algorithm (incl. sorted merge via np.union1d model and concatenate+isin), sorted-merge branch strictly ascending, Axis.intersection = set intersection in the first axis order; one alignment step sets exactly the common labels on the named dimension and touches nothing else; by induction over the list of common axes every output carries the common labels on every shared dimension (identical axes), unaligned dimensions/metadata/well-formedness preserved; data clause is the C07 theorem for each step. _get_cast_kind is GENERATED.',
              note='That the n-ary fold _common_axis is the n-ary union, the direction clause for the concatenate branch, sort=True and Dataset inputs are validated by correspondence + oracle; inputs-unchanged is checked by operand snapshots (functional model).', tech='Coq proof + generated cast-kind table + vm_compute correspondence', ref='3.6')
+CLAIMED['C04'] = dict(text='Coq theorems (unbounded): operation() = NumPy-broadcast elementwise op on the operands after label alignment (C06/C07 theorems) and by-name dimension alignment (reshape to the union of dims); result dims = first operand dims then the new ones; no metadata; exact rational arithmetic where both operands define a coordinate, NaN elsewhere for + - * / //; for ** the full statement is refuted on the faithful model (C04_pow_refuted, NumPy 1**nan = nan**0 = 1) and proved in its partial form; scalar operand in either order = op on values with axes unchanged.',
+             note='Open known finding F6 (pow identity) is listed in KNOWN_FINDINGS.txt and reported as KNOWN-FINDING. Arithmetic is over exact rationals (generators produce dyadic data; power with integer exponents); ndarray right operand and reflected operators validated by correspondence.', tech='Coq proof (refinement to align + elementwise op) + vm_compute correspondence', ref='3.4')
 NOT_YET = {}
 ALL = ['C%02d' % i for i in range(1, 21)]
 def main():
